@@ -6,8 +6,8 @@
    order of definitions and no import structure.  So a rewrite of the schema text can change
    the bytes only through the [ty] the front end elaborates; the wire-level theorems below say
    which changes of [ty] are invisible, for EVERY type, value, nesting depth and sequence. *)
-From Coq Require Import ZArith List Bool String Permutation.
-From BP Require Import Bits Schema Spec WireEq.
+From Coq Require Import ZArith List Bool String Ascii Permutation.
+From BP Require Import Bits Schema Spec WireEq FrontBase Front FrontRewrite.
 Import ListNotations.
 Open Scope Z_scope.
 
@@ -80,3 +80,68 @@ Qed.
 Example C12_example_bytes : wire ex_t ex_v = wire ex_t' (VM [(7, VB true); (1, VZ 21);
       (3, VL [VM [(4, VZ 5); (9, VZ (-7))]; VM [(9, VZ 4095); (4, VZ 1)]])]).
 Proof. vm_compute. reflexivity. Qed.
+
+(* ---------- the front-end side: which rewrites of the schema TEXT leave [ty] unchanged ---------- *)
+
+(* RENAMING messages, fields, enums, enum members, aliases, constants, import `as` names and
+   proto names by any injective map on identifiers (option names are not identifiers of the
+   schema and stay): the rewritten schema is accepted and every message elaborates to the SAME
+   resolved type, so its bytes are the same for every value (value map = identity) *)
+Theorem C12_rename : forall rho fs root trad e,
+  (forall a b, rho a = rho b -> a = b) ->
+  rho GenFront.max_bytes_option_name = GenFront.max_bytes_option_name ->
+  opts_fixed rho fs ->
+  check fs root trad = Ok e ->
+  exists e', check (rename rho fs) root trad = Ok e' /\
+             forall p, msg_ty_at (Ok e') (map rho p) = msg_ty_at (Ok e) p.
+Proof. exact rename_preserves_types. Qed.
+Print Assumptions C12_rename.
+
+(* COMMENTS, WHITESPACE, OPTIONAL SEMICOLONS: absent from the surface tree except for the line
+   attribute of every statement; any per-file relabelling of lines leaves acceptance and every
+   elaborated type unchanged (that the printed text with different trivia parses to the same
+   tree is what every T2 case checks) *)
+Theorem C12_trivia : forall lam fs root trad e,
+  (forall f, lam f 0 = 0) ->
+  check fs root trad = Ok e ->
+  exists e', check (relabel lam fs) root trad = Ok e' /\
+             forall p, msg_ty_at (Ok e') p = msg_ty_at (Ok e) p.
+Proof. exact trivia_preserves_types. Qed.
+Print Assumptions C12_trivia.
+
+(* in fact [check] commutes with both at once, rejections included (same class, corresponding line) *)
+Theorem C12_check_commutes : forall rho lam,
+  (forall a b, rho a = rho b -> a = b) -> (forall f, lam f 0 = 0) ->
+  rho GenFront.max_bytes_option_name = GenFront.max_bytes_option_name ->
+  forall fs root trad, opts_fixed rho fs ->
+  check (rn_files rho lam fs) root trad = rn_res lam (rn_def rho lam) (check fs root trad).
+Proof. exact check_rn. Qed.
+Print Assumptions C12_check_commutes.
+
+(* non-vacuity: prefixing every identifier with "x" and doubling every line number *)
+Definition ex_fs : files :=
+  [("r"%string,
+    [IProto 1 "r"; IImport 2 None "lib";
+     IConst 3 "N" (CExpr (EInt 2));
+     IMsg 4 "M" true
+       [IOption 5 "max_bytes" (OLit (CVInt 0));
+        IEnum 6 "E" (SUint 3) [IEnumField 6 "A" 0; IEnumField 6 "B" 5];
+        IField 7 (XArr (SRef ["E"]) (CapRef ["N"]) true) "es" 2;
+        IField 8 (XSingle (SRef ["lib"; "T"])) "t" 1]]%string);
+   ("lib"%string, [IProto 1 "lib"; IAlias 2 "T" (XSingle (SInt 13))]%string)].
+
+Definition ex_rho (s : string) : string := if String.eqb s "max_bytes" then s else String "x"%char s.
+
+Example C12_rename_example :
+  msg_ty_at (check (rn_files ex_rho (fun _ l => 2 * l) ex_fs) "r" false) ["xM"%string] =
+  msg_ty_at (check ex_fs "r" false) ["M"%string] /\
+  msg_ty_at (check ex_fs "r" false) ["M"%string] =
+  Some (TMsg true [(2, TArr true 2 (TEnum 3 [0; 5])); (1, TAlias (TInt 13))]).
+Proof. split; vm_compute; reflexivity. Qed.
+
+(* PARTIAL (front-end side): for reorder_fields, reorder_defs, alias intro/inline, nest/un-nest,
+   move to import, constant expressions and renumbering the statement
+   "check fs = Ok e -> check (rw fs) = Ok e' /\ the elaborated types are related by rw_star"
+   is NOT proved here; what is proved is the wire-level half above (any such relation between the
+   elaborated types preserves the bytes), and the front-end half is checked per generated pair
+   by T2 (tools/props/c12.py: Front.check on both trees, Spec.wire of both, real compiler bytes). *)
